@@ -13,8 +13,9 @@ mutates nodes in place.  Here
 * the sentinel `eoTerm = {Left: Qlen+1+leftPadding, Right: Qlen+1, Bottom: -1, Top: Qlen+1}` is
   implicit: `mergeHit` answers `none` ("outside the modelled domain") exactly when the Go code
   would read or write the sentinel as anything but an inert end marker — a hit with
-  `-Diagonal > Qlen` or `From - bottomPadding > Qlen + 1`, or a trapezoid whose right edge reaches
-  `Qlen + 1 + leftPadding - diagonalPadding` (no hit of `filter.Filter` does: its k-mers lie inside the query).
+  `From - bottomPadding > Qlen + 1` (no hit of `filter.Filter`: `filter_hits_in_merger_domain`), or a
+  trapezoid whose right edge reaches `Qlen + 1 + leftPadding - diagonalPadding` (excluded since the
+  repair of the sixth defect: a hit with `-Diagonal > Qlen` is dropped at the head of `MergeFilterHit`).
   In all other cases walking onto the sentinel selects the `default` branch (a new trapezoid is
   linked in before it) and the test `temp.Left-diagonalPadding <= base.Right` against it is false.
 
@@ -126,13 +127,19 @@ def walk (c : Cfg) (L T B : Int) : List Trap → List Trap → List Trap → Opt
 def selfCut (c : Cfg) (h : FHit) : Bool :=
   c.selfComparison && decide (-h.diagonal - c.maxIGap ≤ c.maxError)
 
+/-- `if Left > m.query.Len() { return }`: the band of the hit lies beyond the last query row -/
+def beyondQuery (c : Cfg) (h : FHit) : Bool := decide (-h.diagonal > c.qlen)
+
+/-- the two tests at the head of `MergeFilterHit` that return without touching the lists -/
+def dropped (c : Cfg) (h : FHit) : Bool := beyondQuery c h || selfCut c h
+
 /-- the hit leaves the sentinel inert as `base` -/
 def inDomain (c : Cfg) (h : FHit) : Bool :=
-  decide (-h.diagonal ≤ c.qlen) && decide (h.from_ - c.bottomPadding ≤ c.qlen + 1)
+  decide (h.from_ - c.bottomPadding ≤ c.qlen + 1)
 
 /-- `MergeFilterHit` -/
 def mergeHit (c : Cfg) (s : St) (h : FHit) : Option St :=
-  if selfCut c h then some s
+  if dropped c h then some s
   else if !inDomain c h then none
   else walk c (-h.diagonal) h.to h.from_ [] s.active s.done
 
